@@ -20,8 +20,8 @@ import (
 	"go/ast"
 	"go/printer"
 	"go/token"
-	"io"
 	"go/types"
+	"io"
 	"os"
 	"sort"
 	"strings"
